@@ -233,6 +233,11 @@ func (m *Module) start(reports chan *report) {
 				fmt.Sprintf("Starting module %s failed", m.Name),
 				fmt.Sprintf("Failed to start module: %s", err.Error()),
 			)
+			// The module is not running: do not stay in the starting state,
+			// which would keep its dependencies from ever being stopped.
+			m.Lock()
+			m.status = StatusOffline
+			m.Unlock()
 		} else {
 			m.Lock()
 			m.status = StatusOnline
